@@ -76,7 +76,7 @@ def main():
                     break
             out['checks']['%s/%s' % (c, a.tier)] = res
     finally:
-        sh('git -C %s checkout -- .' % REPO)
+        sh('git -C %s checkout -- . && git -C %s clean -fdq src' % (REPO, REPO))
     rc, o = sh('git -C %s status --porcelain --untracked-files=no' % REPO)
     assert o.strip() == '', 'tree not restored: ' + o
     out['caught_by'] = [k for k, v in out['checks'].items() if v['exit'] == 1]
